@@ -337,45 +337,45 @@ variable [Val V]
 open Val
 
 /-- `resultMetric` for group_left / group_right: the labels of the many side (without the name for
-arithmetic and `bool`), the `include` labels taken from the one side. -/
-def resultMetricG (op : BinOp) (isBool : Bool) (include : List String) (many one : Labels) : Labels :=
+arithmetic and `bool`), the `incl` labels taken from the one side. -/
+def resultMetricG (op : BinOp) (isBool : Bool) (incl : List String) (many one : Labels) : Labels :=
   let m := if op.isCmp then many else many.dropName
-  let m := include.foldl (fun acc ln => if one.get ln != "" then acc.set ln (one.get ln) else acc.del [ln]) m
+  let m := incl.foldl (fun acc ln => if one.get ln != "" then acc.set ln (one.get ln) else acc.del [ln]) m
   if isBool then m.dropName else m
 
 /-- the loop of `VectorBinop` for many-to-one matching; `inserted` = (signature, result label set)
 pairs already produced. -/
-def binopLoopG (op : BinOp) (isBool swap : Bool) (mode : MatchMode) (names include : List String)
+def binopLoopG (op : BinOp) (isBool swap : Bool) (mode : MatchMode) (names incl : List String)
     (one : List (Labels × Labels × V)) :
     List (Labels × V) → List (Labels × Labels) → Except Err (List (Labels × V))
   | [], _ => .ok []
   | (mm, mv) :: rest, inserted =>
     let sig := signature mode names mm
     match one.find? (fun r => r.1 = sig) with
-    | none => binopLoopG op isBool swap mode names include one rest inserted
+    | none => binopLoopG op isBool swap mode names incl one rest inserted
     | some (_, om, ov) =>
       let (l, r) := if swap then (ov, mv) else (mv, ov)
       let (val, keep) := elemBinop op l r
       -- for a comparison the value kept is the left operand's, also after the swap of group_right
-      if !isBool && !keep then binopLoopG op isBool swap mode names include one rest inserted
+      if !isBool && !keep then binopLoopG op isBool swap mode names incl one rest inserted
       else
         let val := if isBool then boolVal keep else val
-        let metric := resultMetricG op isBool include mm om
+        let metric := resultMetricG op isBool incl mm om
         if inserted.contains (sig, metric) then .error .groupingDup
         else
-          match binopLoopG op isBool swap mode names include one rest ((sig, metric) :: inserted) with
+          match binopLoopG op isBool swap mode names incl one rest ((sig, metric) :: inserted) with
           | .error e => .error e
           | .ok out => .ok ((metric, val) :: out)
 
 /-- `VectorBinop` with group_left (`left = true`: the left side is the many side) or group_right. -/
-def vectorBinopG (op : BinOp) (isBool : Bool) (mode : MatchMode) (names include : List String) (left : Bool)
+def vectorBinopG (op : BinOp) (isBool : Bool) (mode : MatchMode) (names incl : List String) (left : Bool)
     (lhs rhs : List (Labels × V)) : Except Err (List (Labels × V)) :=
   if lhs.isEmpty || rhs.isEmpty then .ok []
   else
     let (many, one) := if left then (lhs, rhs) else (rhs, lhs)
     let os := one.map (fun r => (signature mode names r.1, r.1, r.2))
     if hasDup (os.map (·.1)) then .error .dupMatch
-    else binopLoopG op isBool (!left) mode names include os many []
+    else binopLoopG op isBool (!left) mode names incl os many []
 
 /-- `quantile(φ, …)` over the members of a group (the engine's `quantile` helper). -/
 def quantileOf (phi : V) (vs : List V) : V :=
@@ -413,20 +413,20 @@ end vals
 
 inductive Expr (V : Type) where
   | num (v : V)
-  | sel (ms : List Matcher) (off : Int) (at : Option Int)
-  | rfn (fn : RFn) (rng : Int) (ms : List Matcher) (off : Int) (at : Option Int)
+  | sel (ms : List Matcher) (off : Int) (atT : Option Int)
+  | rfn (fn : RFn) (rng : Int) (ms : List Matcher) (off : Int) (atT : Option Int)
   | agg (op : AggOp) (without : Bool) (names : List String) (e : Expr V)
   | bin (op : BinOp) (isBool : Bool) (mode : MatchMode) (names : List String) (l r : Expr V)
   | setop (op : SetOp) (mode : MatchMode) (names : List String) (l r : Expr V)
-  | binG (op : BinOp) (isBool : Bool) (mode : MatchMode) (names include : List String) (left : Bool) (l r : Expr V)
+  | binG (op : BinOp) (isBool : Bool) (mode : MatchMode) (names incl : List String) (left : Bool) (l r : Expr V)
   | aggK (op : KAgg) (param : V) (without : Bool) (names : List String) (e : Expr V)
-  | tsSel (ms : List Matcher) (off : Int) (at : Option Int)     -- timestamp(<selector>)
+  | tsSel (ms : List Matcher) (off : Int) (atT : Option Int)     -- timestamp(<selector>)
   | tsOf (e : Expr V)                                           -- timestamp(<other instant vector>)
   | subq (fn : RFn) (rng stp off : Int) (e : Expr V)            -- fn((e)[rng:stp] offset off)
 deriving Repr, Inhabited
 
 /-- the `@` modifier pins the evaluation time of a selector. -/
-def tAt (at : Option Int) (t : Int) : Int := at.getD t
+def tAt (atT : Option Int) (t : Int) : Int := atT.getD t
 
 inductive Value (V : Type) where
   | scalar (v : V)
@@ -476,10 +476,10 @@ def setStep (op : SetOp) (mode : MatchMode) (names : List String) : Value V × V
   | (.vector l, .vector r) => checkDup (setBinop op mode names l r)
   | _ => .error .badType
 
-def binGStep (op : BinOp) (isBool : Bool) (mode : MatchMode) (names include : List String) (left : Bool) :
+def binGStep (op : BinOp) (isBool : Bool) (mode : MatchMode) (names incl : List String) (left : Bool) :
     Value V × Value V → Except Err (Value V)
   | (.vector l, .vector r) =>
-    match vectorBinopG op isBool mode names include left l r with
+    match vectorBinopG op isBool mode names incl left l r with
     | .error e => .error e
     | .ok out => checkDup out
   | _ => .error .badType
@@ -523,10 +523,10 @@ def subqApply (fn : RFn) (rng off t : Int) (inner : List (Labels × List (Pt V))
 range first, then the node per step): one value per step, or the first error met. -/
 def evalSteps (db : List (Series V)) (lb : Int) (steps : List Int) : Expr V → Except Err (List (Value V))
   | .num v => .ok (steps.map (fun _ => .scalar v))
-  | .sel ms off at => .ok (steps.map (fun t => .vector (selStep db lb ms off (tAt at t))))
-  | .rfn fn rng ms off at =>
-    if hasDup (rfnOutLabels db fn rng ms off (steps.map (tAt at))) then .error .dupLabelset
-    else .ok (steps.map (fun t => .vector (rfnStep db fn rng ms off (tAt at t))))
+  | .sel ms off atT => .ok (steps.map (fun t => .vector (selStep db lb ms off (tAt atT t))))
+  | .rfn fn rng ms off atT =>
+    if hasDup (rfnOutLabels db fn rng ms off (steps.map (tAt atT))) then .error .dupLabelset
+    else .ok (steps.map (fun t => .vector (rfnStep db fn rng ms off (tAt atT t))))
   | .agg op without names e =>
     match evalSteps db lb steps e with
     | .error err => .error err
@@ -545,18 +545,18 @@ def evalSteps (db : List (Series V)) (lb : Int) (steps : List Int) : Expr V → 
       match evalSteps db lb steps r with
       | .error err => .error err
       | .ok ys => mapE (setStep op mode names) (xs.zip ys)
-  | .binG op isBool mode names include left l r =>
+  | .binG op isBool mode names incl left l r =>
     match evalSteps db lb steps l with
     | .error err => .error err
     | .ok xs =>
       match evalSteps db lb steps r with
       | .error err => .error err
-      | .ok ys => mapE (binGStep op isBool mode names include left) (xs.zip ys)
+      | .ok ys => mapE (binGStep op isBool mode names incl left) (xs.zip ys)
   | .aggK op param without names e =>
     match evalSteps db lb steps e with
     | .error err => .error err
     | .ok xs => mapE (aggKStep op param without names) xs
-  | .tsSel ms off at => mapE (fun t => tsSelStep db lb ms off (tAt at t)) steps
+  | .tsSel ms off atT => mapE (fun t => tsSelStep db lb ms off (tAt atT t)) steps
   | .tsOf e =>
     match evalSteps db lb steps e with
     | .error err => .error err
